@@ -112,10 +112,9 @@ theorem fac_velocity (u v : U) (hu : U.dim u = some .Velocity) (hv : U.dim v = s
   cases u <;> simp [U.dim] at hu <;> cases v <;> simp [U.dim] at hv <;>
     norm_num [kTo, kFrom, toRaw, fromRaw, Velocity.toRaw, Velocity.fromRaw, SI, inchM, abs_le]
 
-theorem fac_weight (u v : U) (hu : U.dim u = some .Weight) (hv : U.dim v = some .Weight)
-    (hN : u ≠ .Newton ∧ v ≠ .Newton) :
+theorem fac_weight (u v : U) (hu : U.dim u = some .Weight) (hv : U.dim v = some .Weight) :
     |kTo .Weight u * kFrom .Weight v - SI u / SI v| ≤ 1e-6 * |SI u / SI v| := by
-  cases u <;> simp [U.dim] at hu <;> cases v <;> simp [U.dim] at hv <;> simp at hN <;>
+  cases u <;> simp [U.dim] at hu <;> cases v <;> simp [U.dim] at hv <;>
     norm_num [kTo, kFrom, toRaw, fromRaw, Weight.toRaw, Weight.fromRaw, SI, lbKg, g0, abs_le]
 
 
@@ -139,7 +138,7 @@ theorem C06_si_ratio (d : Dim) (hd : d ≠ .Angular ∧ d ≠ .Temperature) (u v
   · exact close_of_factor (by rw [(lin_velocity v y r).2 hy, (lin_velocity u x r).1 hr]; ring)
       (fac_velocity u v hu hv)
   · exact close_of_factor (by rw [(lin_weight v y r).2 hy, (lin_weight u x r).1 hr]; ring)
-      (fac_weight u v hu hv sorry)
+      (fac_weight u v hu hv)
 
 /-! ### angular units -/
 
